@@ -105,6 +105,7 @@ type RetOutcome struct {
 	Raw    []ssa.Value            // result values with phis resolved along the path where possible
 	RawEnv map[*ssa.Phi]ssa.Value // every phi resolution of the path that ended here
 	St     PathState              // the path state at the return (path-state mode)
+	Env    Env                    // what the path knows at the return
 }
 
 const walkStepCap = 400000
@@ -129,6 +130,13 @@ func (w *Walk) FromEntry() *Walk {
 func (w *Walk) After(in ssa.Instruction) *Walk {
 	w.init()
 	w.block(in.Block(), instrIndex(in)+1, Env{}, map[*ssa.Phi]ssa.Value{}, nil, w.Init)
+	return w
+}
+
+// At explores from the instruction itself (a call that is to be followed, say).
+func (w *Walk) At(in ssa.Instruction) *Walk {
+	w.init()
+	w.block(in.Block(), instrIndex(in), Env{}, map[*ssa.Phi]ssa.Value{}, nil, w.Init)
 	return w
 }
 
@@ -299,6 +307,11 @@ func (w *Walk) block(b *ssa.BasicBlock, from int, env Env, raw map[*ssa.Phi]ssa.
 			}
 		}
 		switch t := in.(type) {
+		case *ssa.Alloc:
+			// a private struct starts out as the zero value of its type
+			if privateStruct(t) {
+				env = zeroFieldCells(env, t, derefType(t.Type()))
+			}
 		case *ssa.UnOp:
 			// a whole-struct load of a private struct cell: the loaded value carries what the
 			// path knows about the cell's fields
@@ -369,7 +382,7 @@ func (w *Walk) block(b *ssa.BasicBlock, from int, env Env, raw map[*ssa.Phi]ssa.
 				w.returnTo(fr, t, env, st, raw)
 				return
 			}
-			ro := &RetOutcome{Ret: t, RawEnv: raw, St: st}
+			ro := &RetOutcome{Ret: t, RawEnv: raw, St: st, Env: env}
 			for _, r := range t.Results {
 				ro.Vals = append(ro.Vals, w.eval(r, env))
 				rv := unspill(r)
@@ -733,7 +746,9 @@ func (w *Walk) returnTo(fr *frame, ret *ssa.Return, env Env, st PathState, raw m
 			delete(nenv, call)
 		}
 		// a struct result: what the callee's path knows about its fields
-		if n := structFieldCount(ret.Results[0].Type()); n > 0 {
+		if k, isK := ret.Results[0].(*ssa.Const); isK && k.Value == nil && structFieldCount(k.Type()) > 0 {
+			zeroInto(nenv, call, k.Type())
+		} else if n := structFieldCount(ret.Results[0].Type()); n > 0 {
 			for i := 0; i < n; i++ {
 				if v, has := env[fieldCellOf(ret.Results[0], i)]; has && v.Kind != 0 {
 					nenv[fieldCellOf(call, i)] = v
@@ -745,10 +760,25 @@ func (w *Walk) returnTo(fr *frame, ret *ssa.Return, env Env, st PathState, raw m
 	} else if refs := call.Referrers(); refs != nil {
 		for _, ref := range *refs {
 			if ex, ok := ref.(*ssa.Extract); ok && ex.Index < len(ret.Results) {
-				if v := w.eval(ret.Results[ex.Index], env); v.Kind != 0 {
+				res := ret.Results[ex.Index]
+				if v := w.eval(res, env); v.Kind != 0 {
 					nenv[ex] = v
 				} else {
 					delete(nenv, ex)
+				}
+				// a struct among the results: what the callee's path knows about its fields
+				if n := structFieldCount(res.Type()); n > 0 {
+					if k, isK := res.(*ssa.Const); isK && k.Value == nil {
+						zeroInto(nenv, ex, res.Type())
+						continue
+					}
+					for i := 0; i < n; i++ {
+						if v, has := env[fieldCellOf(res, i)]; has && v.Kind != 0 {
+							nenv[fieldCellOf(ex, i)] = v
+						} else {
+							delete(nenv, fieldCellOf(ex, i))
+						}
+					}
 				}
 			}
 		}
@@ -795,12 +825,48 @@ func (w *Walk) refine(cond ssa.Value, env Env) (Env, Env) {
 			e[k] = v
 		}
 		e[x] = vNil(isNil)
+		if cell := loadedFieldCell(x, bo); cell != nil {
+			e[cell] = vNil(isNil)
+		}
 		return e
 	}
 	if bo.Op == token.EQL {
 		return mk(true), mk(false)
 	}
 	return mk(false), mk(true)
+}
+
+// loadedFieldCell: x is the value of a field of a private local struct (or of a struct value)
+// and the field still holds it at `at`: the cell a fact about x is also a fact about. A load
+// through the field's address counts only when it sits in the block of `at` and nothing is
+// stored to the struct between the two.
+func loadedFieldCell(x ssa.Value, at ssa.Instruction) *fieldCell {
+	switch l := x.(type) {
+	case *ssa.Field:
+		return fieldCellOf(l.X, l.Field)
+	case *ssa.UnOp:
+		fa, ok := l.X.(*ssa.FieldAddr)
+		if !ok || l.Op != token.MUL || l.Block() != at.Block() {
+			return nil
+		}
+		al, ok := fa.X.(*ssa.Alloc)
+		if !ok || !privateStruct(al) {
+			return nil
+		}
+		b := l.Block()
+		for i := instrIndex(l) + 1; i < len(b.Instrs) && b.Instrs[i] != at; i++ {
+			if st, isSt := b.Instrs[i].(*ssa.Store); isSt {
+				if st.Addr == ssa.Value(al) {
+					return nil
+				}
+				if fa2, isFA := st.Addr.(*ssa.FieldAddr); isFA && fa2.X == ssa.Value(al) {
+					return nil
+				}
+			}
+		}
+		return fieldCellOf(al, fa.Field)
+	}
+	return nil
 }
 
 // refineFlag: a computed boolean that is used again besides this branch (merged into a flag by a
@@ -941,6 +1007,41 @@ func copyFieldCells(env Env, from, to ssa.Value, n int) Env {
 			delete(ne, fieldCellOf(to, i))
 		}
 	}
+	return ne
+}
+
+// zeroInto records the zero value of every field of struct type t for base.
+func zeroInto(env Env, base ssa.Value, t types.Type) {
+	st, ok := derefType(t).Underlying().(*types.Struct)
+	if !ok {
+		return
+	}
+	for i := 0; i < st.NumFields(); i++ {
+		cell := fieldCellOf(base, i)
+		switch u := st.Field(i).Type().Underlying().(type) {
+		case *types.Pointer, *types.Slice, *types.Map, *types.Chan, *types.Signature, *types.Interface:
+			env[cell] = vNil(true)
+		case *types.Basic:
+			switch {
+			case u.Info()&types.IsBoolean != 0:
+				env[cell] = vBool(false)
+			case u.Info()&types.IsInteger != 0:
+				env[cell] = vInt(0)
+			default:
+				delete(env, cell)
+			}
+		default:
+			delete(env, cell)
+		}
+	}
+}
+
+func zeroFieldCells(env Env, base ssa.Value, t types.Type) Env {
+	ne := make(Env, len(env)+4)
+	for k, x := range env {
+		ne[k] = x
+	}
+	zeroInto(ne, base, t)
 	return ne
 }
 
